@@ -20,7 +20,8 @@ RULE = (
     "that fail after parsing (known finding C07/py-reserved-identifier); exhaustive over all histories of length "
     "<= 3 (quick) / 4 (thorough) over a 4-text alphabet x {new, recompile} plus biased random histories. After every "
     "op the full probe panel runs on every live evaluator. distinct_nontrivial = distinct histories with >= 1 "
-    "failing recompile or >= 2 evaluators."
+    "failing recompile or >= 2 evaluators. Plus 'ephemeral' histories whose source strings are built on the fly, have equal "
+    "length and are dropped (and garbage-collected) right after use."
 )
 ASSUMPTIONS = [
     "model: an evaluator behaves like a fresh ExperimentEvaluator(last text it accepted); texts are valid / invalid "
@@ -241,6 +242,59 @@ def run(ctx):
             if not ctx.mine(idx):
                 continue
             lc.run_history([("new", 1, "A")] + [("recompile", 0, t) for t in seq], "exhaustive3")
+    # ephemeral texts: every source string is built at the moment it is used and dropped right after (with garbage
+    # collections in between), all of the same length - an evaluator must not recognise "the same source" by anything
+    # but its content
+    import gc
+
+    def build(w1, w2, ok=True):
+        kw = "weighted" if ok else "weightex"
+        return "".join(["def exp { splitters: uid return ", '"a" ', kw, " ", str(w1), ', "b" ', kw, " ", str(w2), " }"])
+
+    neph = ctx.n(60, 3000)
+    for hi in range(neph):
+        c = im.construct(build(1, 1))
+        if c[0] != "ok":
+            break
+        ev = c[1]
+        cur = (1, 1)
+        trace = []
+        for step in range(12):
+            w1, w2 = rnd.randint(1, 9), rnd.randint(1, 9)
+            valid = rnd.random() < 0.75
+            raised = None
+            try:
+                import contextlib
+                import io
+
+                with contextlib.redirect_stdout(io.StringIO()), contextlib.redirect_stderr(io.StringIO()):
+                    ev.recompile(build(w1, w2, valid))  # the only reference to this string dies with the call
+            except Exception as e:  # noqa: BLE001
+                raised = type(e).__name__
+            if rnd.random() < 0.6:
+                gc.collect()
+            trace.append((w1, w2, valid, raised))
+            ctx.evaluated()
+            if valid and raised is None:
+                cur = (w1, w2)
+            if valid and raised is not None:
+                ctx.violation("valid-text-rejected", dict(trace=trace, layer="ephemeral"), mechanism="C11/valid-text-rejected")
+                break
+            if not valid and raised is None:
+                ctx.violation("invalid-text-accepted", dict(trace=trace, layer="ephemeral"), mechanism="C11/invalid-text-accepted")
+                break
+            fresh = im.construct(build(*cur))
+            got = [im.call(ev, env) for env in PANEL]
+            want = [im.call(fresh[1], env) for env in PANEL]
+            ctx.evaluated(len(PANEL))
+            if got != want:
+                i = next(j for j, (a, b) in enumerate(zip(got, want)) if a != b)
+                ctx.violation("behaves-unlike-fresh-evaluator", dict(trace=trace, layer="ephemeral", model_weights=list(cur), input=PANEL[i],
+                                                                     got=got[i], fresh=want[i]), mechanism="C11/state-diverged")
+                break
+        else:
+            ctx.nontrivial("ephemeral", hi, tuple(trace))
+            ctx.count("ephemeral/histories")
     # random histories
     n = ctx.n(1500, 100000)
     hlen = 25 if ctx.quick() else 50
